@@ -98,9 +98,10 @@ func execRegExp(this *object, target string) (bool, []int) {
 	}
 
 	var result []int
-	if 0 > index || index > int64(len(target)) {
-	} else {
-		result = this.regExpValue().regularExpression.FindStringSubmatchIndex(target[index:])
+	// lastIndex counts utf16 code units, the regular expression works on bytes.
+	startIndex, ok := utf16ByteOffset(target, index)
+	if ok {
+		result = this.regExpValue().regularExpression.FindStringSubmatchIndex(target[startIndex:])
 	}
 
 	if result == nil {
@@ -108,20 +109,37 @@ func execRegExp(this *object, target string) (bool, []int) {
 		return false, nil
 	}
 
-	startIndex := index
-	endIndex := int(lastIndex) + result[1]
 	// We do this shift here because the .FindStringSubmatchIndex above
 	// was done on a local subordinate slice of the string, not the whole string
 	for index, offset := range result {
 		if offset != -1 {
-			result[index] += int(startIndex)
+			result[index] += startIndex
 		}
 	}
 	if global {
-		this.put("lastIndex", intValue(endIndex), true)
+		this.put("lastIndex", intValue(utf16Length(target[:result[1]])), true)
 	}
 
 	return true, result
+}
+
+// utf16ByteOffset returns the byte offset in s of the utf16 offset units,
+// false if that is not within s.
+func utf16ByteOffset(s string, units int64) (int, bool) {
+	if units < 0 {
+		return 0, false
+	}
+	var count int64
+	for offset, chr := range s {
+		if count >= units {
+			return offset, true
+		}
+		count++
+		if chr > 0xFFFF {
+			count++
+		}
+	}
+	return len(s), count >= units
 }
 
 func execResultToArray(rt *runtime, target string, result []int) *object {
